@@ -134,8 +134,25 @@ type knownFinding struct {
 	What        string   `json:"what"`
 }
 
+var (
+	childMu  sync.Mutex
+	children = map[*exec.Cmd]bool{}
+)
+
+// killChildren stops every worker still running (a stuck worker must not outlive the driver).
+func killChildren() {
+	childMu.Lock()
+	for c := range children {
+		if c.Process != nil {
+			c.Process.Kill()
+		}
+	}
+	childMu.Unlock()
+}
+
 func infra(format string, a ...interface{}) {
 	fmt.Fprintf(os.Stderr, "INFRA: "+format+"\n", a...)
+	killChildren()
 	os.Exit(2)
 }
 
@@ -196,6 +213,14 @@ func runWorker(bin, dir string, j job, gomaxprocs int, wall time.Duration) (*wor
 	if err := cmd.Start(); err != nil {
 		return nil, nil, err
 	}
+	childMu.Lock()
+	children[cmd] = true
+	childMu.Unlock()
+	defer func() {
+		childMu.Lock()
+		delete(children, cmd)
+		childMu.Unlock()
+	}()
 	done := make(chan error, 1)
 	go func() { done <- cmd.Wait() }()
 	select {
